@@ -894,6 +894,10 @@ func (x *Exec) trySpeculate(fr *frame, blk *ssa.BasicBlock, c *Term, stop *ssa.B
 					ok, reason = false, "panic in arm: "+e.Msg
 				case pathAbort:
 					ok, reason = false, "path abort in arm"
+				case *EngineErr:
+					// not modelled inside a speculated arm: the branch is forked instead (an infeasible arm is then
+					// never executed, a feasible one reports the limitation itself)
+					ok, reason = false, "engine limitation in arm: "+e.Msg
 				default:
 					panic(r)
 				}
@@ -1669,6 +1673,11 @@ func (x *Exec) unop(fr *frame, in *ssa.UnOp) Value {
 			return x.ts.Neg(t)
 		case FloatV:
 			return FloatV{-t.F}
+		case *RealV:
+			if t.Err == nil {
+				panic(x.errf("negation of a big.Float-derived symbolic value is not modelled"))
+			}
+			return &RealV{T: x.ts.RBin(ORSub, x.ts.Real(new(big.Rat)), t.T), Err: t.Err, Mag: t.Mag, Grid: t.Grid, GridOK: t.GridOK, Sign: -t.Sign}
 		case ComplexV:
 			return ComplexV{-t.C}
 		case *FE:
